@@ -1015,6 +1015,24 @@ class MathShim:
         return wrapped
 
 
+def _subst_identity(obj: Any, orig: Any, new: Any, depth: int) -> Tuple[Any, bool]:
+    """A copy of a list / tuple / dict in which every occurrence of the object `orig` (by identity)
+    is replaced by `new`; (obj, False) when there is none."""
+    if obj is orig:
+        return new, True
+    if depth == 0 or not isinstance(obj, (list, tuple, dict)) or type(obj) not in (list, tuple, dict):
+        return obj, False
+    if isinstance(obj, dict):
+        items = {k: _subst_identity(v, orig, new, depth - 1) for k, v in obj.items()}
+        if any(c for _, c in items.values()):
+            return {k: v for k, (v, _) in items.items()}, True
+        return obj, False
+    parts = [_subst_identity(v, orig, new, depth - 1) for v in obj]
+    if any(c for _, c in parts):
+        return type(obj)(v for v, _ in parts), True
+    return obj, False
+
+
 class Shims:
     """Context manager that rebinds names in the library's module namespaces."""
 
@@ -1037,7 +1055,19 @@ class Shims:
             self._set(measured, "math", MathShim())
         if self.int_:
             self._set(measured, "int", IntShim)
-            self._set(measured, "NUMERIC_CLASSES", (IntShim, float, DecimalShim))
+            orig = measured.__dict__.get("NUMERIC_CLASSES")
+            shim_classes = (IntShim, float, DecimalShim)
+            self._set(measured, "NUMERIC_CLASSES", shim_classes)
+            # dispatch tables built at import time hold the original tuple itself: module-level
+            # containers (to depth 3) that contain that very object get the shim tuple in its place
+            if orig is not None:
+                for name, value in list(measured.__dict__.items()):
+                    if name.startswith("__") or name == "NUMERIC_CLASSES":
+                        continue
+                    if isinstance(value, (list, tuple, dict)):
+                        new, changed = _subst_identity(value, orig, shim_classes, 3)
+                        if changed:
+                            self._set(measured, name, new)
         if self.float_:
             self._set(measured, "float", FloatShim)
         return self
@@ -1399,6 +1429,53 @@ def selftest() -> int:
     if sorted(p.outcome for p in ex.paths) != ["ZeroDivisionError", "ok"]:
         raise HarnessError("selftest: division fork")
     cases += 1
+    # the text languages of SStr against CPython: what str()/repr() print is in the language, and
+    # int() accepts exactly the members of INT_ACCEPTS among the probes
+    S = z3.Solver()
+    S.set("timeout", 10000)
+
+    def member(text: str, lang: Any) -> bool:
+        r = str(S.check(z3.InRe(z3.StringVal(text), lang)))
+        if r == "unknown":
+            raise HarnessError("selftest: regex membership undecided")
+        return r == "sat"
+
+    for d in ("5", "-5", "0", "5.0", "0.00", "1E+3", "1.23E-7", "0E-7", "-0", "123456789012345678901234567890",
+              "1000", "0.1", "-12.50"):
+        if not member(str(Decimal(d)), DEC_TEXT):
+            raise HarnessError(f"selftest: str(Decimal({d!r})) outside DEC_TEXT")
+        cases += 1
+    for f in (5.0, -0.5, 1e-05, 1e+22, 1.5e300, 0.1, -0.0, 123456.789, 5e-324):
+        if not member(repr(f), FLOAT_TEXT):
+            raise HarnessError(f"selftest: repr({f!r}) outside FLOAT_TEXT")
+        cases += 1
+    for n in (0, 7, -7, 10 ** 30):
+        if not member(str(n), INT_TEXT):
+            raise HarnessError(f"selftest: str({n}) outside INT_TEXT")
+        cases += 1
+    for text in ("5", "-5", "+5", " 5 ", "5.0", "1E+3", "1_000", "_1", "1__0", "", "-", "0x10", "٣", "5\n", "0E-7"):
+        try:
+            int(text)
+            ok = True
+        except ValueError:
+            ok = False
+        if text.isascii() and member(text, INT_ACCEPTS) != ok:
+            raise HarnessError(f"selftest: INT_ACCEPTS disagrees with int() on {text!r}")
+        cases += 1
+    # math.isclose model against CPython
+    for a, b, rt, at in ((1.0, 1.0 + 1e-12, 1e-9, 0.0), (1.0, 1.1, 1e-9, 0.0), (0.0, 1e-10, 1e-9, 1e-9),
+                         (0.0, 1e-8, 1e-9, 1e-9), (-5.0, -5.0, 0.0, 0.0), (1e-10, -1e-10, 1e-15, 1e-9)):
+        def run4() -> Any:
+            return _isclose(sym("float", "x"), sym("float", "y"), rel_tol=rt, abs_tol=at)
+
+        ex = explore(run4, assumptions=[z3.Real("x") == q(a), z3.Real("y") == q(b)])
+        if len(ex.paths) != 1 or bool(z3.is_true(z3.simplify(bool_term(ex.paths[0].result)))) != \
+                _math.isclose(a, b, rel_tol=rt, abs_tol=at):
+            r, _ = P.prove(ex.paths[0].cond, bool_term(ex.paths[0].result) ==
+                           z3.BoolVal(_math.isclose(a, b, rel_tol=rt, abs_tol=at)))
+            if r != "unsat":
+                raise HarnessError(f"selftest: isclose({a}, {b}) wrong")
+        cases += 1
     return cases
 
 
